@@ -73,9 +73,16 @@ Definition all_last_wills (s : core) : list (str * json) :=
   flat_map (fun m => match dec_last_will (entry_val (snd m)) with Some l => l | None => [] end)
            (collect (data s) [] (sys_clients_pat s_lastWill)).
 
-(* what a flush captures: Store::export strips $SYS *)
+(* what a flush captures: Store::export strips $SYS.  Node::strip removes the $SYS child from the root's map and
+   leaves the map in place: a root that held nothing but $SYS is written as {"t":{}}, not as {} *)
+Definition enc_export (d : node entry) : json :=
+  let n := strip_sys s_SYS d in
+  match nkids n, nkids d, nval n with
+  | [], _ :: _, None => JObj [(s_data, JObj [(s_t, JObj [])])]
+  | _, _, _ => enc_persisted n
+  end.
 Definition snapshot (s : core) : json * json :=
-  (enc_persisted (strip_sys s_SYS (data s)), enc_gglw (all_grave_goods s) (all_last_wills s)).
+  (enc_export (data s), enc_gglw (all_grave_goods s) (all_last_wills s)).
 
 (* synchronous / asynchronous (v3.rs:46-110, after the fix): write the inactive slot, flip last *)
 Definition flush (crash : option N) (s : core) (d : fs) : fs * bool :=
